@@ -233,7 +233,7 @@ func (c *Ctx) Report(desc interface{}, fail *Failure) {
 		}
 		return
 	}
-	if len(c.res.Violations) < 5 {
+	if len(c.res.Violations) < 40 {
 		c.res.Violations = append(c.res.Violations, violation{Index: c.counter - 1, Desc: raw, Msg: fail.Msg, Finding: fail.Finding})
 	}
 }
@@ -519,23 +519,33 @@ func RunMain(self, id, tier string) int {
 	exit := 0
 	nviol := 0
 	var lines []string
-	// confirm the first (smallest) violations by replay before believing them
+	// confirm the first (smallest) violations by replay before believing them; a violation that
+	// does not show again in fresh processes (hash-seed dependent path) is skipped in favour of the
+	// next one, and only if none can be confirmed is the run a harness error
 	reported := 0
+	var unconfirmed []string
 	for _, v := range m.Violations {
-		if reported >= 3 {
+		if reported >= 3 || len(unconfirmed) >= 12 {
 			break
 		}
 		path := writeReplay(vd, id, v)
 		ok, detail := confirm(self, path)
 		if !ok {
-			fmt.Printf("HARNESS-ERROR property=%s violation did not reproduce on replay (%s): %s\n", id, path, detail)
-			return 2
+			unconfirmed = append(unconfirmed, fmt.Sprintf("%s: %s", path, detail))
+			continue
 		}
 		lines = append(lines, fmt.Sprintf("VIOLATION property=%s replay=%s", id, path))
 		lines = append(lines, "  "+firstLines(v.Msg, 12))
+		if detail != "" {
+			lines = append(lines, "  note: "+detail)
+		}
 		reported++
 		nviol++
 		exit = 1
+	}
+	if reported == 0 && len(unconfirmed) > 0 {
+		fmt.Printf("HARNESS-ERROR property=%s %d violation(s) seen by the explorer did not reproduce on replay, e.g. %s\n", id, len(m.Violations), unconfirmed[0])
+		return 2
 	}
 	nviol = len(m.Violations)
 
@@ -638,20 +648,34 @@ func writeReplay(vd, id string, v violation) string {
 	return path
 }
 
-// confirm replays the record twice in fresh processes; both must fail.
+// confirm replays the record in fresh processes. A deterministic case fails in the first two
+// replays. Paths through Distinct/GroupBy produce frames whose row order depends on the
+// library's per-process hash seed, so a failure found by the explorer may need another seed to
+// show again: up to 6 replays are made and at least one must fail (0 of 6 is a harness error).
 func confirm(self, path string) (bool, string) {
-	var msgs []string
-	for i := 0; i < 2; i++ {
+	fails := 0
+	last := ""
+	for i := 0; i < 6; i++ {
 		cmd := exec.Command(self, "replay", path)
 		cmd.Env = append(os.Environ(), "VERIF_DIR="+verifDir())
 		out, err := cmd.CombinedOutput()
 		ee, isExit := err.(*exec.ExitError)
-		if err == nil || !isExit || ee.ExitCode() != 1 {
+		switch {
+		case err == nil:
+			last = fmt.Sprintf("replay %d: case passes", i)
+		case isExit && ee.ExitCode() == 1:
+			fails++
+		default:
 			return false, fmt.Sprintf("replay %d: err=%v out=%s", i, err, tail(string(out), 500))
 		}
-		msgs = append(msgs, string(out))
+		if fails >= 2 || (i >= 1 && fails == i+1) {
+			return true, ""
+		}
 	}
-	return true, ""
+	if fails > 0 {
+		return true, fmt.Sprintf("reproduced in %d of 6 fresh processes (depends on the per-process hash seed)", fails)
+	}
+	return false, last
 }
 
 // ReplayMain re-executes one replay record: exit 1 if the failure reproduces,
